@@ -360,6 +360,7 @@ class TAPParser:
     num_tests = 0
     last_test = 0
     highest_test = 0
+    seen_tests: T.FrozenSet[int] = frozenset()
     yaml_lineno: T.Optional[int] = None
     yaml_indent = ''
     state = _MAIN
@@ -437,6 +438,7 @@ class TAPParser:
                     yield self.Error('test number is too large')
                     self.last_test += 1
                 self.highest_test = max(self.highest_test, self.last_test)
+                self.seen_tests = self.seen_tests | {self.last_test}
                 if self.plan and self.last_test > self.plan.num_tests:
                     yield self.Error('test number exceeds maximum specified in test plan')
                 yield from self.parse_test(m.group(1) == 'ok', self.last_test,
@@ -507,8 +509,8 @@ class TAPParser:
                     yield self.Error(f'Too many tests run (expected {self.plan.num_tests}, got {self.num_tests})')
                 return
 
-            if self.highest_test != self.num_tests:
-                if self.highest_test < self.num_tests:
+            if self.highest_test != self.num_tests or len(self.seen_tests) != self.num_tests:
+                if len(self.seen_tests) < self.num_tests:
                     yield self.Error(f'Duplicate test numbers (expected {self.num_tests}, got test numbered {self.highest_test}')
                 else:
                     yield self.Error(f'Missing test numbers (expected {self.num_tests}, got test numbered {self.highest_test}')
